@@ -47,3 +47,55 @@ func VerifC03ContractReceiveReproduced() {
 		verifAssert(bytes.Equal(B.Data, G.Data), "accepted => the delivered receive block carries the regenerated status data")
 	}
 }
+
+// VerifC03ContractReceiveDescendantsReproduced: the same for a call that makes the contract send (CancelFuse of an
+// expired fusion: one descendant paying the QSR back).  The delivered block carries one descendant whose amount,
+// destination, token and hash field are arbitrary; the parent hash is self-consistent.  Acceptance by the VM implies
+// that the delivered descendant carries the hash of the regenerated one (the parent's hash covers the descendants'
+// hash fields) — and therefore, if that hash matches the delivered descendant's content (the verifier's rule, decided
+// by O1-with-descendant), amount, destination and token are the regenerated ones: no value is created in flight.
+func VerifC03ContractReceiveDescendantsReproduced() {
+	var owner types.Address
+	owner[0], owner[1] = types.UserAddrByte, 1
+	mkEnv := func() (*c09Env, *nom.AccountBlock) {
+		e := &c09Env{contract: types.PlasmaContract}
+		e.as = c01Account(types.PlasmaContract, types.QsrTokenStandard, types.QsrTokenStandard, big.NewInt(50*100000000), big.NewInt(0))
+		e.mom = &c09Momentum{height: 100000, ts: 1700000000}
+		e.ctx = c09Ctx(e)
+		E := &definition.FusionInfo{Owner: owner, Id: types.Hash{5}, Amount: big.NewInt(10 * 100000000), ExpirationHeight: 50, Beneficiary: owner}
+		verifAssert(E.Save(e.as.Storage()) == nil, "save")
+		verifAssert((&definition.FusedAmount{Beneficiary: owner, Amount: big.NewInt(10 * 100000000)}).Save(e.as.Storage()) == nil, "save")
+		send := &nom.AccountBlock{BlockType: nom.BlockTypeUserSend, Version: 1, ChainIdentifier: 1, Height: 5, Address: owner, ToAddress: types.PlasmaContract,
+			TokenStandard: types.ZnnTokenStandard, Amount: big.NewInt(0), Hash: types.Hash{7}, Data: definition.ABIPlasma.PackMethodPanic(definition.CancelFuseMethodName, types.Hash{5})}
+		e.send, e.mom.send = send, send
+		return e, send
+	}
+	e1, send := mkEnv()
+	o := e1.receive()
+	verifAssert(!o.panicked && o.err == nil && o.methodErr == nil && len(o.block.DescendantBlocks) == 1, "the genuine call applies and pays back")
+	G := o.block
+	GD := G.DescendantBlocks[0]
+	e2, _ := mkEnv()
+	D := GD.Copy()
+	D.Amount = c01Amount("delivered descendant.Amount")
+	copy(D.ToAddress[:], verifNondetBytes("delivered descendant.ToAddress", 20))
+	copy(D.TokenStandard[:], verifNondetBytes("delivered descendant.ZTS", 10))
+	D.Hash = c03HashVM("delivered descendant.Hash")
+	B := &nom.AccountBlock{Version: 1, ChainIdentifier: 1, BlockType: nom.BlockTypeContractReceive, Address: types.PlasmaContract, FromBlockHash: send.Hash,
+		MomentumAcknowledged: G.MomentumAcknowledged, PreviousHash: G.PreviousHash, Height: G.Height, ChangesHash: G.ChangesHash, Data: G.Data,
+		DescendantBlocks: []*nom.AccountBlock{D}}
+	if verifNondetBool("delivered block drops the descendant") {
+		B.DescendantBlocks = nil
+	}
+	B.Hash = B.ComputeHash()
+	err := c12Contained(func() error { return NewVM(e2.ctx).applyBlock(B) })
+	verifReach("accepted", err == nil)
+	verifReach("rejected", err != nil)
+	if err == nil {
+		verifAssert(len(B.DescendantBlocks) == 1 && D.Hash == GD.Hash, "accepted => the delivered descendant carries the hash of the regenerated descendant")
+		if D.Hash == D.ComputeHash() {
+			verifReach("accepted with a consistent descendant", true)
+			verifAssert(D.Amount.Cmp(GD.Amount) == 0 && D.ToAddress == GD.ToAddress && D.TokenStandard == GD.TokenStandard, "accepted and descendant hash matches its content => amount, destination and token are the regenerated ones")
+		}
+	}
+}
